@@ -237,14 +237,6 @@ def canon_history(evs, upto):
 def key(tag, toks, d):
     # identity of a failure: clause + offending probe/list + the call history up to the failing event
     try:
-        if toks[0] == 0 and len(d) >= 5 and d[0] == 902 and d[-1] == 1 and d[2] in (1, 4):
-            # the whole trace is accepted when a subnet rule is identified by the text
-            # IPNet.String() prints (the code's reading) and rejected when it is identified by
-            # the set of addresses (the property's reading): the failure is the one produced by
-            # the canonical minimal history below and by nothing else
-            return ("C10:gater:clause%d:conngater.go BlockSubnet/UnblockSubnet key=ipnet.String():"
-                    "BlockSubnet(IPNet{IP with host bits set, mask}); UnblockSubnet(IPNet{same subnet, other host bits}) -> nil; "
-                    "%s" % (d[2], "address of the subnet still refused" if d[2] == 1 else "subnet still listed"))
         if toks[0] == 0 and len(d) >= 3 and d[0] == 902:
             probes, evs = parse_gater(toks)
             i, clause = d[1], d[2]
@@ -288,7 +280,7 @@ def what(tag, toks, d):
 if __name__ == "__main__":
     ctx = Ctx("C10")
     ctx.assumptions = [
-        "net.IP.String / net.IPNet.String are used as map and datastore keys: modelled as injective on (family, value) resp. (family, unmasked network, prefix length); peer.ID.String (base58) injective; exercised by the correspondence, not proved",
+        "net.IP.String / net.IPNet.String are used as map and datastore keys: modelled as injective on (family, value) resp. (family, network, prefix length); canonicalSubnet = ParseCIDR(ipnet.String()) transcribed as masking the network number; peer.ID.String (base58) injective; exercised by the correspondence, not proved",
         "multiaddrs are abstracted to what manet.ToIP returns (IP of a leading /ip4 | /ip6 | /ip6zone+/ip6 component, or none); the harness builds real multiaddrs of every form and cross-checks ToIP on each",
         "IP values have 4 or 16 bytes and masks are CIDR masks of 4 or 16 bytes (what net.ParseIP / ParseCIDR / CIDRMask produce); IPNets for which String() prints <nil> and non-contiguous masks are outside the model",
         "the datastore is a key-value map with atomic Put/Delete and prefix Query (go-datastore MapDatastore behind namespace.Wrap): modelled, not verified",
@@ -307,7 +299,8 @@ if __name__ == "__main__":
         rule="gater level: the real BasicConnectionGater over a MapDatastore wrapped to fail / stop the process at a chosen write "
              "(error returned; stop after the write; stop before the write; clean restart), the abandoned gater replaced by a new one on the "
              "same datastore. Histories of Block*/Unblock* over 4 peers, IPv4 / IPv6 / IPv4-mapped-IPv6 addresses (4- and 16-byte forms), "
-             "subnets in all four IPNet representations incl. /0 /1 /31 /32 /127 /128; systematic: a base history and, for every call k and "
+             "subnets in all four IPNet representations incl. /0 /1 /31 /32 /127 /128, canonical and with host bits set (the same subnet under different String() texts); "
+             "a fixed corpus of the repaired defect (block 10.1.2.3/24, unblock 10.1.2.0/24, with/without restart and process stops); systematic: a base history and, for every call k and "
              "every fault kind, the same history with the fault at k; plus random mixes. After every call: ListBlockedPeers/Addrs/Subnets and "
              "InterceptPeerDial / InterceptAddrDial / InterceptAccept / InterceptSecured on multiaddrs of every form (ip4, ip6, mapped, "
              "ip6zone, dns*, unix, p2p-circuit; tcp, quic-v1, ws, wss, webtransport, webrtc-direct, relayed) aimed at the rules and at the first/last "
